@@ -10,7 +10,9 @@
    `_get_children` (a virtual DAG).
 
    The walker object is long-lived: [mm] (self.memoization) and [stk] (self.stack) are instance
-   attributes and survive from one call of [walk] to the next, also when the call raised.
+   attributes and survive from one call of [walk] to the next.  When a call raises, the stack
+   is emptied (iter_walk) and a one-shot table is cleared (walk), as in the code since
+   c824285 / 4d718bf.
    [calls], [pops], [log] are ghost counters: number of callback invocations, number of
    stack pops, and the callback invocation order (most recent first).
 
@@ -102,28 +104,29 @@ Section DagWalk.
   Definition with_mm (s : st) (m : memo) : st :=
     mkSt m (stk s) (calls s) (pops s) (log s).
 
-  (* iter_walk: push (False, formula); _process_stack; return self.memoization[key] *)
+  (* iter_walk: push (False, formula); try: _process_stack  except: del self.stack[:]; raise
+     (the work stack is dropped when the walk fails); return self.memoization[key] *)
   Definition iter_walk (fuel : nat) (w : st) (root : nat) : st * answer :=
     match run fuel (with_stk w ((false, root) :: stk w)) with
     | Done s => match mm s root with
                 | Some v => (s, Ok v)
                 | None => (s, Err (EKey root))
                 end
-    | Failed e s => (s, Err e)
+    | Failed e s => (with_stk s [], Err e)
     | OutOfFuel s => (s, NoFuel)
     end.
 
   (* walk.  [early]: `formula in self.memoization` can hit (i.e. _get_key is the identity;
      it never hits for walkers whose keys are tuples).  [oneshot]: invalidate_memoization.
-     The early hit returns without clearing; an exception skips the clearing. *)
+     The early hit returns without clearing; otherwise
+       try: res = self.iter_walk(...)  finally: if self.invalidate_memoization: clear()
+     i.e. a one-shot table is cleared whether the walk returned or raised. *)
   Definition walk (early oneshot : bool) (fuel : nat) (w : st) (root : nat) : st * answer :=
     match (if early then mm w root else None) with
     | Some v => (w, Ok v)
     | None =>
-        match iter_walk fuel w root with
-        | (s, Ok v) => (if oneshot then with_mm s mempty else s, Ok v)
-        | r => r
-        end
+        let '(s, a) := iter_walk fuel w root in
+        (if oneshot then with_mm s mempty else s, a)
     end.
 
   Definition init : st := mkSt mempty [] 0 0 [].
